@@ -183,6 +183,28 @@ ADDENDA2 = {
 DEBUG_SHARDS = {'C01', 'C02', 'C04', 'C06', 'C07', 'C08', 'C09', 'C10', 'C13', 'C18'}
 DEBUG = ' One shard in eight runs the engine in debug mode (CHAMELEON_DEBUG; counted in the evidence).'
 
+# round 9 (DESIGN 10.6)
+ADDENDA3 = {
+ 'C02': ' One value at several places of different kinds in one rendering (long values); script and style text.',
+ 'C03': ' U+FEFF as the first character of a str document; instruction targets that merely begin with the code-block target.',
+ 'C04': ' The long-lived ExpressionEvaluator under histories of (type, string) requests, against the same expression in a template.',
+ 'C06': ' string: expressions with braces and interpolations of their own; macro definitions inside switched-off subtrees; the same non-idempotent expression text several times.',
+ 'C07': ' A dictionary written after a named entry for a static attribute; the caller\'s dictionaries compared with their state before the rendering.',
+ 'C08': ' One-shot items under unpacking; repeat entries read from macros of other templates and from fillers.',
+ 'C09': ' Slots handed on by a macro whose use runs several times per call.',
+ 'C10': ' White space after an i18n:attributes message id; the on-error fallback object after descendant settings.',
+ 'C11': ' Expressions inside processing instructions; multi-line expressions an added pair of brackets would repair.',
+ 'C12': ' Failing expressions inside processing instructions; an application class derived from RenderError.',
+ 'C13': ' Exceptions carrying a line / offset of their own.',
+ 'C14': ' Byte values and per-call encoding arguments in render histories, compared with a fresh instance.',
+ 'C15': ' One cache directory shared by processes started differently (python -O, ASCII locale, other hash seed).',
+ 'C16': ' Search directories whose names hold colons, blanks or a package-like prefix.',
+ 'C17': ' Elements that merely mention a charset beside or instead of the content-type element.',
+ 'C18': ' Names differing from template names only in case; the attrs builtin rendered whole; re-binding elements that close children left open.',
+ 'C19': ' Blank interpolations; superseded fillers and fillers of unknown slots.',
+ 'C20': ' The encoding option changed between renderings of one file text template; U+FEFF as an ordinary character.',
+}
+
 NOT_YET = {}
 
 def main():
@@ -200,7 +222,7 @@ def main():
             'replay_cmd_template': './vcheck %s --replay {path}' % pid,
             'engine': engine,
             'technique': tech,
-            'level_claimed': {'category': cat, 'text': text + ADDENDA.get(pid, '') + ADDENDA2.get(pid, '') + HISTORY + (ROUTES if pid in USES_ROUTES else '') + (DEBUG if pid in DEBUG_SHARDS else ''), 'design_ref': ref},
+            'level_claimed': {'category': cat, 'text': text + ADDENDA.get(pid, '') + ADDENDA2.get(pid, '') + ADDENDA3.get(pid, '') + HISTORY + (ROUTES if pid in USES_ROUTES else '') + (DEBUG if pid in DEBUG_SHARDS else ''), 'design_ref': ref},
             'level_note': note,
         })
     not_app = []
